@@ -11,11 +11,13 @@ import (
 
 	"github.com/buildbarn/bb-remote-execution/pkg/builder"
 	"github.com/buildbarn/bb-remote-execution/pkg/filesystem/virtual"
+	"github.com/buildbarn/bb-remote-execution/pkg/proto/outputpathpersistency"
 	"github.com/buildbarn/bb-storage/pkg/filesystem"
 	"github.com/buildbarn/bb-storage/pkg/filesystem/path"
 
 	"google.golang.org/grpc/codes"
 	"google.golang.org/grpc/status"
+	"google.golang.org/protobuf/proto"
 )
 
 // ---- bookkeeping -----------------------------------------------------------
@@ -210,6 +212,8 @@ func malformedCategory(kind string) string {
 		return "malformed-duplicate-name-refused"
 	case kind == "case-colliding-names":
 		return "malformed-case-colliding-names-refused"
+	case kind == "symlink-target-nul":
+		return "malformed-symlink-target-refused"
 	case len(kind) >= 10 && kind[:10] == "bad-digest":
 		return "malformed-bad-digest-refused"
 	}
@@ -223,12 +227,21 @@ func (a *action) opBad(p []string, m *mnode, d virtual.Directory) {
 	kind := m.ref.bad
 	liveBefore := e.leaves.live()
 	pd, isPD := d.(virtual.PrepopulatedDirectory)
-	variant := a.rng.IntN(8)
-	if !isPD && variant >= 4 && variant <= 6 {
+	variant := a.rng.IntN(19)
+	if !isPD && ((variant >= 4 && variant <= 6) || (variant >= 12 && variant <= 15)) {
 		variant = 1
 	}
-	if variant == 7 && len(p) == 0 {
+	if (variant == 7 || variant == 16 || variant == 17) && len(p) == 0 {
 		variant = 0
+	}
+	if variant == 18 {
+		// Not judged: the digest closure of a directory that cannot be
+		// loaded is outside the statement. Must not panic or write.
+		ap := virtual.ApplyGetContainingDigests{Context: e.ctx}
+		handled := d.VirtualApply(&ap)
+		a.logf("apply-containing-digests on malformed %s -> handled=%v err=%v", pathString(p), handled, ap.Err)
+		a.h("bad-apply-containing-digests", ap.Err != nil)
+		variant = 1
 	}
 	refused := true
 	via := ""
@@ -316,14 +329,131 @@ func (a *action) badAccess(variant int, p []string, d virtual.Directory, pd virt
 		}
 		_, s := parent.VirtualRemove(e.ctx, comp(p[len(p)-1]), true, false)
 		refused, st = s != virtual.StatusOK, statusName(s)
+	case 8:
+		via = "VirtualLink"
+		leaf := a.anyRootLeaf()
+		if leaf == nil {
+			via = "VirtualLookup"
+			var at virtual.Attributes
+			_, s := d.VirtualLookup(e.ctx, comp("f0"), maskCompare, &at)
+			refused, st = s != virtual.StatusOK, statusName(s)
+			break
+		}
+		var at virtual.Attributes
+		_, s := d.VirtualLink(e.ctx, comp("zz-linked"), leaf, maskCompare, &at)
+		refused, st = s != virtual.StatusOK, statusName(s)
+	case 9:
+		via = "VirtualMknod"
+		var at virtual.Attributes
+		_, _, s := d.VirtualMknod(e.ctx, comp("zz-symlink"), (&virtual.Attributes{}).SetFileType(filesystem.FileTypeSymlink).SetSymlinkTarget(path.UNIXFormat.NewParser("t")), maskCompare, &at)
+		refused, st = s != virtual.StatusOK, statusName(s)
+	case 10:
+		via = "VirtualRename-from"
+		_, _, s := d.VirtualRename(e.ctx, comp("f0"), a.irDir, comp("zz-moved-out"))
+		refused, st = s != virtual.StatusOK, statusName(s)
+	case 11:
+		via = "VirtualRemove-inside"
+		_, s := d.VirtualRemove(e.ctx, comp("f0"), true, true)
+		refused, st = s != virtual.StatusOK, statusName(s)
+	case 12:
+		via = "Remove-inside"
+		err := pd.Remove(comp("f0"))
+		refused, st = err != nil, err
+	case 13:
+		via = "RemoveAll-inside"
+		err := pd.RemoveAll(comp("f0"))
+		refused, st = err != nil, err
+	case 14:
+		via = "CreateChildren"
+		err := pd.CreateChildren(map[path.Component]virtual.InitialChild{
+			comp("zz-new"): virtual.InitialChild{}.FromDirectory(virtual.EmptyInitialContentsFetcher),
+		}, a.rng.IntN(2) == 0)
+		refused, st = err != nil, err
+	case 15:
+		via = "CreateAndEnterPrepopulatedDirectory"
+		_, err := pd.CreateAndEnterPrepopulatedDirectory(comp("zz-new"))
+		refused, st = err != nil, err
+	case 16:
+		via = "parent.Remove"
+		parent, ok := a.resolve(p[:len(p)-1])
+		if !ok {
+			return true
+		}
+		ppd, isPD := parent.(virtual.PrepopulatedDirectory)
+		if !isPD {
+			return true
+		}
+		err := ppd.Remove(comp(p[len(p)-1]))
+		refused, st = err != nil, err
+	case 17:
+		// Renaming another directory onto the malformed one needs its
+		// contents (it has to be empty): refused, and both stay.
+		via = "rename-directory-onto"
+		pp := p[:len(p)-1]
+		parent, ok := a.resolve(pp)
+		if !ok {
+			return true
+		}
+		pm := a.modelAt(pp)
+		tmp := a.freshName()
+		var at virtual.Attributes
+		if _, _, s := parent.VirtualMkdir(e.ctx, comp(tmp), &virtual.Attributes{}, maskCompare, &at); s != virtual.StatusOK {
+			a.violate("modification refused op=mkdir status="+statusName(s), fmt.Sprintf("%s: mkdir %q failed", pathString(pp), tmp), map[string]any{"path": pathString(pp)})
+			return true
+		}
+		pm.children[tmp] = newLocalDir()
+		a.noteModified(pm)
+		_, _, s := parent.VirtualRename(e.ctx, comp(tmp), parent, comp(p[len(p)-1]))
+		refused, st = s != virtual.StatusOK, statusName(s)
+		if refused && !a.verifyNames("rename-onto-bad", pp, pm, parent, tmp, p[len(p)-1]) {
+			return true
+		}
 	}
 	return false
 }
+
+// modelAt returns the model node of the directory at path p.
+func (a *action) modelAt(p []string) *mnode {
+	m := a.model
+	for _, n := range p {
+		m.expand()
+		m = m.children[n]
+	}
+	return m
+}
+
+// anyRootLeaf returns some leaf of the action's root directory (or nil).
+func (a *action) anyRootLeaf() virtual.Leaf {
+	a.model.expand()
+	for _, n := range a.model.names() {
+		if a.model.children[n].kind == kindDir {
+			continue
+		}
+		var at virtual.Attributes
+		child, s := a.irDir.VirtualLookup(a.c.e.ctx, comp(n), maskCompare, &at)
+		if s != virtual.StatusOK {
+			return nil
+		}
+		_, leaf := child.GetPair()
+		return leaf
+	}
+	return nil
+}
+
+// unspecifiedMalformation names defects of a Directory message about which
+// the statement says nothing; refusing them is what the code does, and then
+// the usual no-leak/no-partial-tree rules apply, but presenting them is not
+// judged.
+func unspecifiedMalformation(kind string) bool { return kind == "symlink-target-nul" }
 
 func (a *action) finishBad(p []string, m *mnode, d virtual.Directory, kind, via string, refused bool, st any, liveBefore int) {
 	e := a.c.e
 	a.logf("bad-access %s kind=%s via=%s -> %v", pathString(p), kind, via, st)
 	a.h("bad-"+via, refused)
+	if !refused && unspecifiedMalformation(kind) {
+		a.c.situation("unspecified-malformation-presented")
+		return
+	}
 	if !refused {
 		a.violate("malformed accepted kind="+kind+" via="+via,
 			fmt.Sprintf("%s: malformed directory (%s) was presented instead of an error (%v)", pathString(p), kind, st),
@@ -436,7 +566,7 @@ func (a *action) opPrepop(p []string, m *mnode, d virtual.Directory) {
 				return
 			}
 			seen[n] = true
-			wantType := map[int]filesystem.FileType{kindDir: filesystem.FileTypeDirectory, kindFile: filesystem.FileTypeRegularFile, kindSymlink: filesystem.FileTypeSymlink}[want.kind]
+			wantType := modelFileType(want)
 			if fi.Type() != wantType {
 				a.violate("fidelity kind-mismatch op=ReadDir want="+kindName(want.kind), fmt.Sprintf("%s/%s: type %d, expected %d", pathString(p), n, fi.Type(), wantType), map[string]any{"path": pathString(p), "name": n})
 				return
@@ -507,6 +637,18 @@ func (a *action) opPrepop(p []string, m *mnode, d virtual.Directory) {
 	}
 }
 
+func modelFileType(m *mnode) filesystem.FileType {
+	switch m.kind {
+	case kindDir:
+		return filesystem.FileTypeDirectory
+	case kindFile:
+		return filesystem.FileTypeRegularFile
+	case kindSymlink:
+		return filesystem.FileTypeSymlink
+	}
+	return m.ftype
+}
+
 // lookupLeaf resolves a leaf child of d.
 func (a *action) lookupLeaf(op string, p []string, m *mnode, d virtual.Directory, name string) (virtual.Leaf, bool) {
 	var at virtual.Attributes
@@ -570,6 +712,11 @@ func (a *action) opSymlink(p []string, m *mnode, d virtual.Directory) {
 	name := links[a.rng.IntN(len(links))]
 	want := m.children[name]
 	where := pathString(append(append([]string(nil), p...), name))
+	if a.rng.IntN(3) == 0 {
+		a.logf("probe-symlink %s", where)
+		a.probeSymlink(p, m, d, name)
+		return
+	}
 	if a.rng.IntN(2) == 0 {
 		var at virtual.Attributes
 		mask := maskCompare | virtual.AttributesMaskSymlinkTarget
@@ -624,7 +771,7 @@ func (a *action) opBuildDir(p []string, m *mnode, d virtual.Directory) {
 		a.violate("fidelity Lstat-failed", fmt.Sprintf("%s: %v", where, err), map[string]any{"path": where})
 		return
 	}
-	wantType := map[int]filesystem.FileType{kindDir: filesystem.FileTypeDirectory, kindFile: filesystem.FileTypeRegularFile, kindSymlink: filesystem.FileTypeSymlink}[want.kind]
+	wantType := modelFileType(want)
 	if fi.Type() != wantType {
 		a.violate("fidelity kind-mismatch op=Lstat want="+kindName(want.kind), fmt.Sprintf("%s: type %d, expected %d", where, fi.Type(), wantType), map[string]any{"path": where})
 		return
@@ -813,6 +960,24 @@ func (a *action) probeLeaf(where string, leaf virtual.Leaf, data []byte) (bool, 
 	var out virtual.Attributes
 	chmod := leaf.VirtualSetAttributes(e.ctx, (&virtual.Attributes{}).SetPermissions(virtual.PermissionsRead|virtual.PermissionsWrite|virtual.PermissionsExecute), maskCompare, &out)
 	a.h("probe-chmod", statusName(chmod))
+	// chown, named attributes and the VirtualApply() operations: whatever
+	// they answer, the file has to stay what it is.
+	var out2 virtual.Attributes
+	a.h("probe-chown", statusName(leaf.VirtualSetAttributes(e.ctx, (&virtual.Attributes{}).SetOwnerUserID(0).SetOwnerGroupID(0), maskCompare, &out2)))
+	var out3 virtual.Attributes
+	a.h("probe-chgrp", statusName(leaf.VirtualSetAttributes(e.ctx, (&virtual.Attributes{}).SetOwnerGroupID(7), maskCompare, &out3)))
+	for _, create := range []bool{false, true} {
+		var nat virtual.Attributes
+		nd, s := leaf.VirtualOpenNamedAttributes(e.ctx, create, maskCompare, &nat)
+		a.h(fmt.Sprintf("probe-named-attributes-%v", create), statusName(s))
+		if s == virtual.StatusOK && nd == nil {
+			a.violate("fidelity named-attributes-ok-without-directory", where, map[string]any{"path": where})
+			return false, ""
+		}
+	}
+	if !a.probeApply(where, leaf, data) || !a.probeSeek(where, leaf, data) {
+		return false, ""
+	}
 	// A read-only open keeps working.
 	if s := leaf.VirtualOpenSelf(e.ctx, virtual.ShareMaskRead, &virtual.OpenExistingOptions{}, maskCompare, &at); s != virtual.StatusOK {
 		a.violate("fidelity open-for-read-refused", fmt.Sprintf("%s: VirtualOpenSelf(read) = %s", where, statusName(s)), map[string]any{"path": where})
@@ -827,6 +992,180 @@ func (a *action) probeLeaf(where string, leaf virtual.Leaf, data []byte) (bool, 
 		return false, ""
 	}
 	return true, panicked
+}
+
+// probeApply drives every VirtualApply() operation against a CAS-backed
+// file. Operations that report the file's identity must report the one of
+// the requested tree; none may write to the CAS.
+func (a *action) probeApply(where string, leaf virtual.Leaf, data []byte) bool {
+	e := a.c.e
+	dg := e.digestOf(a.c.g.df, data)
+	var at virtual.Attributes
+	leaf.VirtualGetAttributes(e.ctx, virtual.AttributesMaskPermissions, &at)
+	perm, _ := at.GetPermissions()
+	exec := perm&virtual.PermissionsExecute != 0
+
+	cd := virtual.ApplyGetContainingDigests{Context: e.ctx}
+	if !leaf.VirtualApply(&cd) || cd.Err != nil || cd.ContainingDigests.Length() != 1 || cd.ContainingDigests.Items()[0] != dg {
+		a.violate("fidelity apply-containing-digests-mismatch", fmt.Sprintf("%s: ApplyGetContainingDigests = %v (err %v), expected {%s}", where, cd.ContainingDigests.Items(), cd.Err, dg),
+			map[string]any{"path": where})
+		return false
+	}
+	pn := virtual.ApplyAppendOutputPathPersistencyDirectoryNode{Directory: &outputpathpersistency.Directory{}, Name: comp("probe")}
+	if !leaf.VirtualApply(&pn) || len(pn.Directory.Files) != 1 || len(pn.Directory.Symlinks) != 0 || len(pn.Directory.Directories) != 0 ||
+		pn.Directory.Files[0].Name != "probe" || !proto.Equal(pn.Directory.Files[0].Digest, dg.GetProto()) || pn.Directory.Files[0].IsExecutable != exec {
+		a.violate("fidelity apply-persistency-node-mismatch", fmt.Sprintf("%s: persistency node %v, expected digest %s exec=%v", where, pn.Directory, dg, exec),
+			map[string]any{"path": where})
+		return false
+	}
+	df := a.c.g.df
+	st := virtual.ApplyGetBazelOutputServiceStat{DigestFunction: &df}
+	handled := leaf.VirtualApply(&st)
+	a.h("probe-apply-bazel-stat", fmt.Sprintf("%v/%v", handled, st.Err == nil))
+	if handled && st.Err == nil && st.Stat.GetFile() == nil {
+		a.violate("fidelity apply-bazel-stat-not-a-file", where, map[string]any{"path": where})
+		return false
+	}
+	up := virtual.ApplyUploadFile{Context: e.ctx, ContentAddressableStorage: e.store, DigestFunction: df}
+	if !leaf.VirtualApply(&up) || up.Err != nil || up.Digest != dg {
+		a.violate("fidelity upload-digest-mismatch", fmt.Sprintf("%s: ApplyUploadFile = %s, %v; expected %s", where, up.Digest, up.Err, dg), map[string]any{"path": where})
+		return false
+	}
+	fr := virtual.ApplyOpenReadFrozen{}
+	if leaf.VirtualApply(&fr) && fr.Err == nil && fr.Reader != nil {
+		// Not offered by CAS files today; if it ever is, the bytes count.
+		buf := make([]byte, len(data)+1)
+		n, _ := fr.Reader.ReadAt(buf, 0)
+		fr.Reader.Close()
+		if string(buf[:n]) != string(data) {
+			a.violate("fidelity content-mismatch op=open-read-frozen", where, map[string]any{"path": where})
+			return false
+		}
+	}
+	type unknownApply struct{}
+	a.h("probe-apply-unknown", leaf.VirtualApply(&unknownApply{}))
+	if w := e.store.writes(); len(w) != 0 {
+		a.violate("immutability cas-written via=apply", fmt.Sprintf("%s: the CAS received writes %v", where, w), map[string]any{"path": where, "writes": w})
+		return false
+	}
+	return true
+}
+
+// probeSeek checks that data/hole answers are consistent with the bytes: a
+// region reported as a hole may only cover zero bytes, and ENXIO for data
+// may only be answered if nothing but zero bytes (or nothing) follows.
+func (a *action) probeSeek(where string, leaf virtual.Leaf, data []byte) bool {
+	e := a.c.e
+	size := uint64(len(data))
+	allZero := func(from, to uint64) bool {
+		for i := from; i < to && i < size; i++ {
+			if data[i] != 0 {
+				return false
+			}
+		}
+		return true
+	}
+	offs := []uint64{0, size / 2, size, size + 5}
+	if size > 0 {
+		offs = append(offs, size-1, uint64(a.rng.IntN(len(data))))
+	}
+	for _, off := range offs {
+		r, s := leaf.VirtualSeek(e.ctx, off, filesystem.Data)
+		bad := ""
+		switch {
+		case s == virtual.StatusOK && r != nil:
+			if *r < off || *r > size || (off < size && *r >= size) && !allZero(off, size) || !allZero(off, *r) {
+				bad = fmt.Sprintf("SEEK_DATA(%d) = %d for a %d byte file", off, *r, size)
+			}
+		case s == virtual.StatusErrNXIO:
+			if !allZero(off, size) {
+				bad = fmt.Sprintf("SEEK_DATA(%d) = ENXIO although data follows", off)
+			}
+		case s == virtual.StatusOK && r == nil:
+			// "no more data": same as ENXIO.
+			if !allZero(off, size) {
+				bad = fmt.Sprintf("SEEK_DATA(%d) = end although data follows", off)
+			}
+		default:
+			bad = fmt.Sprintf("SEEK_DATA(%d) failed with %s", off, statusName(s))
+		}
+		if bad == "" {
+			r, s = leaf.VirtualSeek(e.ctx, off, filesystem.Hole)
+			switch {
+			case s == virtual.StatusOK && r != nil:
+				if *r < off || *r > size || (*r < size && data[*r] != 0) {
+					bad = fmt.Sprintf("SEEK_HOLE(%d) = %d for a %d byte file", off, *r, size)
+				}
+			case s == virtual.StatusErrNXIO:
+				if off < size {
+					bad = fmt.Sprintf("SEEK_HOLE(%d) = ENXIO inside a %d byte file", off, size)
+				}
+			case s == virtual.StatusOK && r == nil:
+			default:
+				bad = fmt.Sprintf("SEEK_HOLE(%d) failed with %s", off, statusName(s))
+			}
+		}
+		if bad != "" {
+			a.violate("fidelity seek-inconsistent-with-contents", where+": "+bad, map[string]any{"path": where})
+			return false
+		}
+	}
+	a.h("probe-seek", "ok")
+	return true
+}
+
+// probeSymlink drives the mutation entry points of a symbolic link of the
+// input root; the target has to stay what the Directory message says.
+func (a *action) probeSymlink(p []string, m *mnode, d virtual.Directory, name string) {
+	e := a.c.e
+	want := m.children[name]
+	where := pathString(append(append([]string(nil), p...), name))
+	leaf, ok := a.lookupLeaf("probe-symlink", p, m, d, name)
+	if !ok {
+		return
+	}
+	var at virtual.Attributes
+	for _, sh := range []virtual.ShareMask{virtual.ShareMaskRead, virtual.ShareMaskWrite} {
+		s := leaf.VirtualOpenSelf(e.ctx, sh, &virtual.OpenExistingOptions{Truncate: sh == virtual.ShareMaskWrite}, maskCompare, &at)
+		if s == virtual.StatusOK {
+			leaf.VirtualClose(sh)
+		}
+		a.h("symlink-open", statusName(s))
+	}
+	var out virtual.Attributes
+	a.h("symlink-setattr-size", statusName(leaf.VirtualSetAttributes(e.ctx, (&virtual.Attributes{}).SetSizeBytes(0), maskCompare, &out)))
+	a.h("symlink-chown", statusName(leaf.VirtualSetAttributes(e.ctx, (&virtual.Attributes{}).SetOwnerUserID(0), maskCompare, &out)))
+	a.h("symlink-chgrp", statusName(leaf.VirtualSetAttributes(e.ctx, (&virtual.Attributes{}).SetOwnerGroupID(0), maskCompare, &out)))
+	a.h("symlink-chmod", statusName(leaf.VirtualSetAttributes(e.ctx, (&virtual.Attributes{}).SetPermissions(virtual.PermissionsRead), maskCompare, &out)))
+	a.h("symlink-allocate", statusName(leaf.VirtualAllocate(e.ctx, 0, 10)))
+	for _, create := range []bool{false, true} {
+		var nat virtual.Attributes
+		_, s := leaf.VirtualOpenNamedAttributes(e.ctx, create, maskCompare, &nat)
+		a.h("symlink-named-attributes", statusName(s))
+	}
+	df := a.c.g.df
+	st := virtual.ApplyGetBazelOutputServiceStat{DigestFunction: &df}
+	if leaf.VirtualApply(&st) && st.Err == nil && (st.Stat.GetSymlink() == nil || st.Stat.GetSymlink().Target != normTarget(want.target)) {
+		a.violate("fidelity symlink-target-mismatch op=apply-bazel-stat", fmt.Sprintf("%s: %v, expected %q", where, st.Stat, normTarget(want.target)), map[string]any{"path": where})
+		return
+	}
+	pn := virtual.ApplyAppendOutputPathPersistencyDirectoryNode{Directory: &outputpathpersistency.Directory{}, Name: comp("probe")}
+	if leaf.VirtualApply(&pn) && len(pn.Directory.Symlinks) == 1 && pn.Directory.Symlinks[0].Target != normTarget(want.target) {
+		a.violate("fidelity symlink-target-mismatch op=apply-persistency-node", fmt.Sprintf("%s: %v, expected %q", where, pn.Directory.Symlinks[0], normTarget(want.target)), map[string]any{"path": where})
+		return
+	}
+	up := virtual.ApplyUploadFile{Context: e.ctx, ContentAddressableStorage: e.store, DigestFunction: df}
+	a.h("symlink-apply-upload", fmt.Sprintf("%v/%v", leaf.VirtualApply(&up), up.Err == nil))
+	cd := virtual.ApplyGetContainingDigests{Context: e.ctx}
+	a.h("symlink-apply-containing-digests", leaf.VirtualApply(&cd))
+	if w := e.store.writes(); len(w) != 0 {
+		a.violate("immutability cas-written via=symlink-probe", fmt.Sprintf("%s: the CAS received writes %v", where, w), map[string]any{"path": where, "writes": w})
+		return
+	}
+	// Whatever the answers were: same node, same target.
+	if _, ok := a.lookupLeaf("probe-symlink-after", p, m, d, name); ok {
+		a.c.situation("immutability-probed-symlink")
+	}
 }
 
 // checkResolvable exercises the other CAS file flavour (resolvable handles,
@@ -1035,7 +1374,7 @@ func (a *action) opModify(p []string, m *mnode, d virtual.Directory) {
 	e := a.c.e
 	pd, _ := d.(virtual.PrepopulatedDirectory)
 	names := m.names()
-	variant := a.rng.IntN(11)
+	variant := a.rng.IntN(16)
 	expectOK := func(op string, s virtual.Status) bool {
 		a.h(op, statusName(s))
 		if s != virtual.StatusOK {
@@ -1048,7 +1387,7 @@ func (a *action) opModify(p []string, m *mnode, d virtual.Directory) {
 	}
 	switch variant {
 	case 0: // remove a leaf
-		leaves := append(m.namesOfKind(kindFile, nil), m.namesOfKind(kindSymlink, nil)...)
+		leaves := append(append(m.namesOfKind(kindFile, nil), m.namesOfKind(kindSymlink, nil)...), m.namesOfKind(kindOther, nil)...)
 		if len(leaves) == 0 {
 			return
 		}
@@ -1263,6 +1602,8 @@ func (a *action) opModify(p []string, m *mnode, d virtual.Directory) {
 		copy(nd[off:], patch)
 		c.local.data = nd
 		a.verifyNames("overwrite", p, m, d, n)
+	default:
+		a.opModify2(variant, p, m, d, pd)
 	}
 }
 
@@ -1274,6 +1615,8 @@ func describeNode(m *mnode) string {
 		return fmt.Sprintf("dir cas=%v loaded=%v", m.ref != nil, m.realLoaded)
 	case m.kind == kindSymlink:
 		return fmt.Sprintf("symlink %q", m.target)
+	case m.kind == kindOther:
+		return fmt.Sprintf("special type=%d", m.ftype)
 	case m.isCASFile():
 		return fmt.Sprintf("casfile %s exec=%v", m.blob.digest, m.exec)
 	}
